@@ -31,11 +31,15 @@ def run(ctx):
     ctx.model("Run.RunC07", recs2, shard=300)
     # over real sockets: the frame of a call which gave up while the frame was still being written is, when it arrives, the
     # encoding of that call's request, whatever calls were made after it (both call directions)
+    inflight(ctx, "C16")
+
+
+def inflight(ctx, name):
     import props.C03 as c03
     rc5, out5, recs5 = ctx.go("", "^TestVerifC16InFlight$", c03.FILES + ["root/c16b_test.go"], "wsrpc", timeout=300)
     ctx.records += recs5
     if rc5 != 0 or not recs5:
-        ctx.fail("harness:C16-inflight", "the in-flight harness did not run to completion on this tree: " + out5[-1200:], kind="correspondence", no_input=True)
+        ctx.fail("harness:" + name + "-inflight", "the in-flight harness did not run to completion on this tree: " + out5[-1200:], kind="correspondence", no_input=True)
     for r in recs5:
         if r.get("fail"):
             ctx.fail(r["fail"], "wire monitor '%s' failed: %s" % (r["fail"], str(r.get("info"))[:400]), case=r)
